@@ -12,6 +12,27 @@ CHECKS = {
     note="Trusted: Coq kernel + vm_compute; the mock-based table emitter (harness/c09.py); CPython. Class-level codecs are "
          "not verified here (C07/C08). openbabel cells are outside the matrix (not installed). No axioms.",
     ref="7/C09"),
+ "C02": dict(
+    technique="Coq refinement proof (invariant by induction over operation histories) of a hand model of UKVFile + differential correspondence compiled as kernel-checked Examples",
+    text="Theorems C02_step_refines / C02_refines (Props/C02.v): for every history of open/close/put/get/keys over any number of "
+         "handles that respects the session discipline, the file model refines an insert-only association list: get returns the "
+         "bytes of the one successful put, keys is exactly the set of put keys, failed operations leave file and every handle "
+         "unchanged, headers preserved, stale cached tables are refreshed soundly (C02_stale_refresh). The model is tied to "
+         "molli/storage/ukvfile.py on every run: ~900 histories (bounded-exhaustive + seeded random, 1..3 handles, values to 70 kB) "
+         "are run on the real UKVFile and on the model inside Coq (Example closed by vm_compute) and judged by an independent oracle.",
+    note="Trusted: Coq kernel + vm_compute; harness/ukv_common.py; CPython buffered I/O and struct.pack are modelled (in-order byte "
+         "stream). Assumes the session discipline the C04 lock enforces. Creation modes x/w only create the file. No axioms.",
+    ref="7/C02, 12.1"),
+ "C03": dict(
+    technique="Coq proof over every prefix of a session's write stream (crash image theorem) + every-byte-offset differential correspondence",
+    text="Theorems C03_crash_reopen / C03_reads_exact / C03_recover_append (Props/C03.v): for all committed records, all session "
+         "puts and EVERY byte offset n, reopening committed ++ firstn n (stream) lists exactly committed ++ the records wholly "
+         "below n, every get returns exact bytes or KeyError, append mode cuts the torn tail and re-establishes the C02 invariant "
+         "(so any further history, incl. a second crash, is covered by C02_refines). Tie: the real UKVFile's write stream is cut at "
+         "every offset (~4000 images + random crash histories) and compared with the model inside Coq.",
+    note="Trusted: Coq kernel + vm_compute; harness (images produced by truncating the file the real session wrote = the property's "
+         "crash model: an in-order prefix of the byte stream). fsync / reordering below the page cache are outside the model. No axioms.",
+    ref="7/C03, 12.1"),
 }
 
 PENDING = {
